@@ -127,18 +127,25 @@ def run_case(case, root, extractall):
     problems = []
     if outside:
         problems.append("created outside the destination: %r" % (outside[:5],))
-    want = "done" if case["status"] == "done" else "raised"
-    if got != want:
-        # "rejected" (an escaping member) and "oserror" (a file where a directory is needed) both
-        # mean: extractall raises - which exception class is not part of the property
-        problems.append("verdict %s (spec: %s) %s" % (got, case["status"], err or ""))
-    if not outside:
-        if want == "done" and created_inside != expected:
-            problems.append("effect differs: extra=%r missing=%r" % (sorted(created_inside - expected)[:4], sorted(expected - created_inside)[:4]))
-        elif want == "raised" and not created_inside <= expected:
+    # What the property fixes: nothing outside the destination; an escaping member => an error.
+    # What it leaves free (and the model merely transcribes): whether empty directories are
+    # materialised, and whether a name clash INSIDE the destination (a file where a directory is
+    # needed - status "oserror") raises or is skipped.
+    status = case["status"]
+    files_expected = set(e for e in expected if e[0] == "f")
+    if status == "done":
+        if got != "done":
+            problems.append("verdict %s (spec: %s) %s" % (got, status, err or ""))
+        if not outside and not (files_expected <= created_inside <= expected):
+            problems.append("effect differs: extra=%r missing files=%r" % (sorted(created_inside - expected)[:4], sorted(files_expected - created_inside)[:4]))
+    elif status == "rejected":
+        if got != "raised":
+            problems.append("verdict %s (spec: %s) %s" % (got, status, err or ""))
+        if not outside and not created_inside <= expected:
             # a rejected archive may leave the members before the failing one (the code extracts in
             # order) or fewer (e.g. when all names are validated first) - but nothing else
             problems.append("effect differs: extra=%r" % (sorted(created_inside - expected)[:4],))
+    # status "oserror": verdict and effect inside the destination are free; `outside` is judged above
     if problems:
         return {"case": case, "names": names, "names_read_back": read_names, "got": got, "problems": problems}
     return None
